@@ -143,10 +143,12 @@ inductive FindRes where
   | slots (s : List ASlot)
 deriving DecidableEq, Repr
 
-/-- the failed-request cache: the last request that failed was at least as large -/
+/-- the failed-request cache: the request is at least as large (per rank and in the number of slots) as the last
+    request that failed - nothing was released since, so it fails as well (repaired: the comparison had the two
+    requests the other way round, refusing every SMALLER request after a failure) -/
 def cacheHit (l : NL) (rr : RR) (n : Nat) : Bool :=
   match l.lastFailed with
-  | some (frr, fn) => rrGe frr rr && decide (fn ≥ n)
+  | some (frr, fn) => rrGe rr frr && decide (n ≥ fn)
   | none           => false
 
 /-- `NodeList.find_slots` -/
